@@ -83,10 +83,12 @@ theorem facts_critical_section : Vegeta.Extracted.hitCriticalSection =
 
 /-- Nowhere else in `hit` is a Timestamp or a sequence number assigned; the timestamp derives
 from the attack's start instant (monotonic clock); the latency is measured in a deferred
-function from that same timestamp. -/
+function from that same timestamp; the clock itself is read (time.Since/time.Now) in the expression assigned
+inside the critical section, not before it. -/
 theorem facts_no_assignment_outside :
     Vegeta.Extracted.hitTimestampAssignsOutsideCS = 0 ∧ Vegeta.Extracted.hitSeqAssignsOutsideCS = 0 ∧
-    Vegeta.Extracted.hitTimestampFromBegan = true ∧ Vegeta.Extracted.hitLatencyInDeferFromTimestamp = true := by decide
+    Vegeta.Extracted.hitTimestampFromBegan = true ∧ Vegeta.Extracted.hitLatencyInDeferFromTimestamp = true ∧
+    Vegeta.Extracted.hitTimestampClockReadInCS = true := by decide
 
 /-! non-vacuity: two workers, the second timestamp is read later but both orders agree -/
 example : (run (init 2 2 0) [.ready, .ready, .paceWait 0, .wake, .tick, .paceWait 0, .wake, .tick, .advance 3, .csEnter,
